@@ -323,7 +323,14 @@ impl SetPack {
     }
 }
 pub fn setpack_strategy() -> impl Strategy<Value = SetPack> {
-    (2usize..=9).prop_flat_map(|n| {
+    setpack_strategy_sized(2, 9)
+}
+/// 11..=15 items: hundreds of sub-problems, states lingering in the pool over many layers
+pub fn setpack_large_strategy() -> impl Strategy<Value = SetPack> {
+    setpack_strategy_sized(11, 15)
+}
+pub fn setpack_strategy_sized(lo: usize, hi: usize) -> impl Strategy<Value = SetPack> {
+    (lo..=hi).prop_flat_map(|n| {
         (prop::collection::vec(-3isize..=9, n), prop::collection::vec(any::<bool>(), n * n), prop::sample::select(vec![20u8, 50, 80]), any::<bool>(), any::<bool>()).prop_map(move |(weight, e, dens, lff, use_rub)| {
             let mut adj = vec![0u32; n];
             let thr = (dens as usize * n * n) / 100;
@@ -498,6 +505,10 @@ impl StateRanking for LcsRank {
         sb.cmp(&sa).then(b.0.cmp(&a.0))
     }
 }
+/// 2-3 strings of 5..=9 letters
+pub fn lcs_large_strategy() -> impl Strategy<Value = MiniLcs> {
+    (2u8..=4, 2usize..=3).prop_flat_map(|(letters, m)| (prop::collection::vec(prop::collection::vec(0u8..letters, 5..=9), m), any::<bool>()).prop_map(move |(strings, use_rub)| MiniLcs { strings, letters, use_rub }))
+}
 pub fn lcs_strategy() -> impl Strategy<Value = MiniLcs> {
     (2u8..=3, 2usize..=3).prop_flat_map(|(letters, m)| (prop::collection::vec(prop::collection::vec(0u8..letters, 1..=5), m), any::<bool>()).prop_map(move |(strings, use_rub)| MiniLcs { strings, letters, use_rub }))
 }
@@ -577,10 +588,14 @@ pub fn family_name(f: &Family) -> &'static str {
     }
 }
 pub fn fam_case_strategy(which: Vec<u8>, dds: Vec<DdKind>, parallel: bool) -> impl Strategy<Value = FamCase> {
+    // 0..=2: the small families; 10..=12: their large versions
     let fam = prop::sample::select(which).prop_flat_map(|w| match w {
         0 => knap_strategy().prop_map(Family::Knap).boxed(),
         1 => setpack_strategy().prop_map(Family::SetPack).boxed(),
-        _ => lcs_strategy().prop_map(Family::Lcs).boxed(),
+        2 => lcs_strategy().prop_map(Family::Lcs).boxed(),
+        10 => knap_large_strategy().prop_map(Family::Knap).boxed(),
+        11 => setpack_large_strategy().prop_map(Family::SetPack).boxed(),
+        _ => lcs_large_strategy().prop_map(Family::Lcs).boxed(),
     });
     let threads = if parallel { prop_oneof![2 => Just(None), 1 => (1usize..=3).prop_map(Some)].boxed() } else { Just(None).boxed() };
     (fam, config_strategy(ConfigGen { max_width: 3, dd: Some(dds), rub_none_only: true, dom: Some(false), ..Default::default() }), threads).prop_map(|(fam, cfg, threads)| FamCase { fam, dd: cfg.dd, cache: cfg.cache, fringe: cfg.fringe, width: cfg.width, threads })
